@@ -1100,7 +1100,13 @@ def explore(harness, params=None, model="R", seed=0, witness_every=1, max_paths=
     n_done = 0
     vio_seen = {}
     deadline = time.time() + float(os.environ.get("VERIF_TASK_TIMEOUT", "2400"))
+    stopfile = os.environ.get("VERIF_STOPFILE")
     while worklist:
+        if stopfile and os.path.exists(stopfile):
+            # another shard of this check already confirmed a run that never ends: every further path
+            # costs a full time-out and adds nothing to the verdict
+            res.stopped_early = "stopped: a fatal violation was confirmed by another shard"
+            break
         if time.time() > deadline:
             res.engine_errors.append("shard time budget exhausted with %d prefixes left" % len(worklist))
             break
@@ -1168,6 +1174,11 @@ def explore(harness, params=None, model="R", seed=0, witness_every=1, max_paths=
             _witness(harness, params, model, c, res)
         if c.notes.get("fatal") and any(v.get("status", "").startswith("confirmed") for v in res.violations):
             res.stopped_early = "stopped after the confirmed violation of %r (each further path would cost a full time-out)" % c.notes["fatal"]
+            if stopfile:
+                try:
+                    open(stopfile, "w").close()
+                except OSError:
+                    pass
             break
         if max_paths and n_done >= max_paths:
             res.engine_errors.append("path budget %d exhausted" % max_paths)
